@@ -1666,4 +1666,384 @@ theorem canonRdata_unlisted (typ : Nat) (rd : Bytes)
     simp [h]
   unfold canonRdata; rw [hl]
 
+/-! ### the decoder ignores line breaks; error prefixes; the RSAMD5 chunked read -/
+
+/-- the text without its CR / LF. -/
+def strip (s : Bytes) : Bytes := s.filter (fun c => !isNL c)
+
+theorem strip_cons_nl (c : UInt8) (t : Bytes) (h : isNL c = true) : strip (c :: t) = strip t := by simp [strip, h]
+theorem strip_cons (c : UInt8) (t : Bytes) (h : isNL c = false) : strip (c :: t) = c :: strip t := by simp [strip, h]
+theorem strip_nlfree (s : Bytes) : NLFree (strip s) := by
+  intro c hc; have := (List.mem_filter.mp hc).2; simpa using this
+theorem strip_of_nlfree (s : Bytes) (h : NLFree s) : strip s = s := by
+  unfold strip; exact List.filter_eq_self.mpr (fun c hc => by simp [h c hc])
+theorem strip_strip (s : Bytes) : strip (strip s) = strip s := strip_of_nlfree _ (strip_nlfree s)
+theorem strip_length_le (s : Bytes) : (strip s).length ≤ s.length := List.length_filter_le _ _
+
+theorem dropNL_strip (t : Bytes) : dropNL (strip t) = strip t := by
+  cases h : strip t with
+  | nil => rfl
+  | cons c r =>
+    have : isNL c = false := strip_nlfree t c (by rw [h]; simp)
+    simp [dropNL, this]
+
+theorem strip_dropNL (t : Bytes) : strip (dropNL t) = strip t := by
+  induction t with
+  | nil => rfl
+  | cons c r ih =>
+    unfold dropNL
+    by_cases h : isNL c = true
+    · simp only [h, if_true]; rw [ih, strip_cons_nl c r h]
+    · simp [h]
+
+theorem dropNL_head (t : Bytes) (c : UInt8) (r : Bytes) (h : dropNL t = c :: r) : isNL c = false ∧ strip t = c :: strip r := by
+  induction t with
+  | nil => simp [dropNL] at h
+  | cons x u ih =>
+    unfold dropNL at h
+    by_cases hx : isNL x = true
+    · simp only [hx, if_true] at h
+      have := ih h
+      exact ⟨this.1, by rw [strip_cons_nl x u hx]; exact this.2⟩
+    · have hx' : isNL x = false := by simpa using hx
+      simp only [hx', Bool.false_eq_true, if_false, List.cons.injEq] at h
+      obtain ⟨rfl, rfl⟩ := h
+      exact ⟨hx', strip_cons x u hx'⟩
+
+theorem dropNL_nil_iff (t : Bytes) : dropNL t = [] ↔ strip t = [] := by
+  constructor
+  · intro h; rw [← strip_dropNL, h]; rfl
+  · intro h
+    cases hd : dropNL t with
+    | nil => rfl
+    | cons c r => have := (dropNL_head t c r hd).2; rw [h] at this; cases this
+
+theorem isEmpty_dropNL (t : Bytes) : (dropNL t).isEmpty = (strip t).isEmpty := by
+  by_cases h : dropNL t = []
+  · rw [h, (dropNL_nil_iff t).mp h]
+  · have h' : strip t ≠ [] := fun x => h ((dropNL_nil_iff t).mpr x)
+    cases hd : dropNL t with
+    | nil => exact absurd hd h
+    | cons _ _ => cases hs : strip t with
+      | nil => exact absurd hs h'
+      | cons _ _ => rfl
+
+/-- one quantum on a text and on the text without line breaks. -/
+theorem quantum_strip : ∀ (s : Bytes) (acc : List Nat),
+    (quantum s acc).out = (quantum (strip s) acc).out ∧ (quantum s acc).err = (quantum (strip s) acc).err ∧
+      strip (quantum s acc).rest = strip (quantum (strip s) acc).rest := by
+  intro s
+  induction s with
+  | nil => intro acc; simp [strip]
+  | cons c t ih =>
+    intro acc
+    by_cases hnl : isNL c = true
+    · rw [strip_cons_nl c t hnl]
+      have : quantum (c :: t) acc = quantum t acc := by
+        conv => lhs; unfold quantum
+        simp [nl_not_sextet c hnl, hnl]
+      rw [this]; exact ih acc
+    · have hnl' : isNL c = false := by simpa using hnl
+      rw [strip_cons c t hnl']
+      cases hs : sextet c with
+      | some v =>
+        unfold quantum
+        simp only [hs]
+        by_cases h4 : (acc ++ [v]).length = 4
+        · simp [h4, strip_strip]
+        · simp only [h4, if_false]; exact ih (acc ++ [v])
+      | none =>
+        unfold quantum
+        simp only [hs, hnl', Bool.false_eq_true, if_false]
+        by_cases h61 : (c != 61) = true
+        · simp [h61, strip_strip]
+        · simp only [h61, if_false]
+          match hl : acc.length with
+          | 0 => simp [strip_strip]
+          | 1 => simp [strip_strip]
+          | 2 =>
+            simp only
+            rw [dropNL_strip]
+            cases hd : dropNL t with
+            | nil => have := (dropNL_nil_iff t).mp hd; rw [this]; simp [strip]
+            | cons c2 t2 =>
+              obtain ⟨_, hst⟩ := dropNL_head t c2 t2 hd
+              rw [hst]
+              simp only
+              by_cases h2 : (c2 != 61) = true
+              · simp [h2, strip_strip]
+              · simp only [h2, if_false, Bool.false_eq_true]
+                rw [dropNL_strip]
+                refine ⟨by simp, by rw [isEmpty_dropNL], by rw [strip_dropNL, strip_strip]⟩
+          | k + 3 =>
+            simp only [Bool.false_eq_true, if_false]
+            rw [dropNL_strip]
+            refine ⟨by simp, by rw [isEmpty_dropNL], by rw [strip_dropNL, strip_strip]⟩
+
+/-- one step of the decoder. -/
+theorem b64Decode_step (s : Bytes) (h : s ≠ []) :
+    b64Decode s = (if (quantum s []).err then ((quantum s []).out, false)
+      else ((quantum s []).out ++ (b64Decode (quantum s []).rest).1, (b64Decode (quantum s []).rest).2)) := by
+  have he : s.isEmpty = false := by simpa using h
+  conv => lhs; unfold b64Decode decodeAux
+  simp only [he, Bool.false_eq_true, if_false, List.nil_append]
+  by_cases hq : (quantum s []).err = true
+  · simp [hq]
+  · have hq' : (quantum s []).err = false := by simpa using hq
+    simp only [hq', Bool.false_eq_true, if_false]
+    rw [decodeAux_acc, b64Decode_eq _ s.length (quantum_progress s h hq')]
+
+theorem b64Decode_nil : b64Decode [] = ([], true) := by simp [b64Decode, decodeAux]
+
+/-- **the decoder ignores CR / LF wherever they stand.** -/
+theorem b64Decode_strip : ∀ (n : Nat) (s : Bytes), s.length ≤ n → b64Decode s = b64Decode (strip s) := by
+  intro n
+  induction n with
+  | zero => intro s h
+            have : s = [] := List.eq_nil_of_length_eq_zero (by omega)
+            subst this; rfl
+  | succ n ih =>
+    intro s hlen
+    by_cases hs : s = []
+    · subst hs; rfl
+    · obtain ⟨ho, he, hr⟩ := quantum_strip s []
+      rw [b64Decode_step s hs]
+      by_cases hst : strip s = []
+      · rw [hst] at ho he hr
+        have e0 : (quantum ([] : Bytes) []).err = false := by simp [quantum]
+        have o0 : (quantum ([] : Bytes) []).out = [] := by simp [quantum]
+        have r0 : (quantum ([] : Bytes) []).rest = [] := by simp [quantum]
+        rw [e0] at he; rw [o0] at ho; rw [r0] at hr
+        have hprog := quantum_progress s hs he
+        have := ih (quantum s []).rest (by omega)
+        rw [hst, b64Decode_nil]
+        simp only [he, Bool.false_eq_true, if_false, ho, List.nil_append]
+        rw [this, hr]; simp [strip, b64Decode_nil]
+      · rw [b64Decode_step (strip s) hst]
+        by_cases herr : (quantum s []).err = true
+        · simp [herr, ← he, ho]
+        · have herr' : (quantum s []).err = false := by simpa using herr
+          have herr2 : (quantum (strip s) []).err = false := by rw [← he]; exact herr'
+          simp only [herr', herr2, Bool.false_eq_true, if_false]
+          have p1 := quantum_progress s hs herr'
+          have p2 := quantum_progress (strip s) hst herr2
+          have l2 := strip_length_le s
+          rw [ih (quantum s []).rest (by omega), ih (quantum (strip s) []).rest (by omega), hr, ho]
+
+theorem b64Decode_strip' (s : Bytes) : b64Decode s = b64Decode (strip s) := b64Decode_strip s.length s (Nat.le_refl _)
+
+theorem q_sext (x : UInt8) (v : Nat) (t : Bytes) (acc : List Nat) (hs : sextet x = some v) (hl : acc.length < 3) :
+    quantum (x :: t) acc = quantum t (acc ++ [v]) := by
+  conv => lhs; unfold quantum
+  have : ¬ (acc ++ [v]).length = 4 := by simp; omega
+  simp only [hs, this, if_false]
+
+theorem q_bad (x : UInt8) (t : Bytes) (acc : List Nat) (hs : sextet x = none) (hnl : isNL x = false)
+    (h : x ≠ 61 ∨ acc.length ≤ 1) : (quantum (x :: t) acc).out = [] ∧ (quantum (x :: t) acc).err = true := by
+  unfold quantum
+  simp only [hs, hnl, Bool.false_eq_true, if_false]
+  by_cases h61 : x = 61
+  · have hl : acc.length ≤ 1 := by rcases h with h | h; exact absurd h61 h; exact h
+    have : (x != 61) = false := by simp [h61]
+    simp only [this, Bool.false_eq_true, if_false]
+    match hm : acc.length, hl with
+    | 0, _ => simp
+    | 1, _ => simp
+  · have : (x != 61) = true := by simp [h61]
+    simp [this]
+
+/-- what a decode yields when its first quantum ends it. -/
+theorem decode_ended (s : Bytes) (hs : s ≠ []) (h : (quantum s []).err = true ∨ (quantum s []).rest = []) :
+    (b64Decode s).1 = (quantum s []).out := by
+  rw [b64Decode_step s hs]
+  by_cases he : (quantum s []).err = true
+  · simp [he]
+  · have he' : (quantum s []).err = false := by simpa using he
+    rcases h with h | h
+    · exact absurd h he
+    · simp [he', h, b64Decode_nil]
+
+/-- a group of four non-line-break characters that is not four alphabet
+characters ends the decode, and what it yields does not depend on what follows. -/
+theorem head4_ends (a b c d : UInt8) (tail : Bytes)
+    (ha : isNL a = false) (hb : isNL b = false) (hc : isNL c = false) (hd : isNL d = false)
+    (hbad : ¬ Clean [a, b, c, d]) :
+    (b64Decode (a :: b :: c :: d :: tail)).1 = (b64Decode [a, b, c, d]).1 := by
+  -- it suffices to describe the first quantum for an arbitrary tail
+  suffices key : ∃ out : Bytes, ∀ tl : Bytes, (quantum (a :: b :: c :: d :: tl) []).out = out ∧
+      ((quantum (a :: b :: c :: d :: tl) []).err = true ∨ (quantum (a :: b :: c :: d :: tl) []).rest = []) by
+    obtain ⟨out, hk⟩ := key
+    rw [decode_ended _ (by simp) (hk tail).2, decode_ended [a, b, c, d] (by simp) (hk []).2, (hk tail).1, (hk []).1]
+  cases hsa : sextet a with
+  | none =>
+    exact ⟨[], fun tl => ⟨(q_bad a _ [] hsa ha (Or.inr (by simp))).1, Or.inl (q_bad a _ [] hsa ha (Or.inr (by simp))).2⟩⟩
+  | some va =>
+    cases hsb : sextet b with
+    | none =>
+      refine ⟨[], fun tl => ?_⟩
+      rw [q_sext a va _ [] hsa (by simp)]
+      exact ⟨(q_bad b _ _ hsb hb (Or.inr (by simp))).1, Or.inl (q_bad b _ _ hsb hb (Or.inr (by simp))).2⟩
+    | some vb =>
+      cases hsc : sextet c with
+      | none =>
+        by_cases hc61 : c = 61
+        · subst hc61
+          by_cases hd61 : d = 61
+          · subst hd61
+            refine ⟨emit [va, vb] 2, fun tl => ?_⟩
+            rw [q_sext a va _ [] hsa (by simp), q_sext b vb _ _ hsb (by simp)]
+            unfold quantum
+            simp only [hsc, hc, Bool.false_eq_true, if_false, bne_self_eq_false, List.nil_append, List.length_cons,
+              List.length_nil, dropNL, hd]
+            cases hdt : dropNL tl <;> simp [hdt]
+          · refine ⟨[], fun tl => ?_⟩
+            rw [q_sext a va _ [] hsa (by simp), q_sext b vb _ _ hsb (by simp)]
+            unfold quantum
+            have hdne : (d != 61) = true := by simp [hd61]
+            simp [hsc, hc, dropNL, hd, hdne]
+        · refine ⟨[], fun tl => ?_⟩
+          rw [q_sext a va _ [] hsa (by simp), q_sext b vb _ _ hsb (by simp)]
+          exact ⟨(q_bad c _ _ hsc hc (Or.inl hc61)).1, Or.inl (q_bad c _ _ hsc hc (Or.inl hc61)).2⟩
+      | some vc =>
+        cases hsd : sextet d with
+        | some vd =>
+          exfalso; apply hbad
+          intro x hx
+          simp only [List.mem_cons, List.not_mem_nil, or_false] at hx
+          rcases hx with rfl | rfl | rfl | rfl <;> simp [hsa, hsb, hsc, hsd]
+        | none =>
+          by_cases hd61 : d = 61
+          · subst hd61
+            refine ⟨emit [va, vb, vc] 3, fun tl => ?_⟩
+            rw [q_sext a va _ [] hsa (by simp), q_sext b vb _ _ hsb (by simp), q_sext c vc _ _ hsc (by simp)]
+            unfold quantum
+            simp only [hsd, hd, Bool.false_eq_true, if_false, bne_self_eq_false, List.nil_append, List.length_cons,
+              List.length_nil]
+            cases hdt : dropNL tl <;> simp [hdt]
+          · refine ⟨[], fun tl => ?_⟩
+            rw [q_sext a va _ [] hsa (by simp), q_sext b vb _ _ hsb (by simp), q_sext c vc _ _ hsc (by simp)]
+            exact ⟨(q_bad d _ _ hsd hd (Or.inl hd61)).1, Or.inl (q_bad d _ _ hsd hd (Or.inl hd61)).2⟩
+
+/-- **error prefix.** A line-break-free text of whole groups that does not
+decode cleanly to its full size yields the same octets whatever follows it. -/
+theorem decode_prefix_stops : ∀ (n : Nat) (c : Bytes), NLFree c → c.length = 4 * n →
+    ¬ ((b64Decode c).2 = true ∧ (b64Decode c).1.length = 3 * n) →
+    ∀ more : Bytes, (b64Decode (c ++ more)).1 = (b64Decode c).1 := by
+  intro n
+  induction n with
+  | zero =>
+    intro c _ hl hnot
+    have : c = [] := List.eq_nil_of_length_eq_zero (by omega)
+    subst this
+    exact absurd ⟨by simp [b64Decode_nil], by simp [b64Decode_nil]⟩ hnot
+  | succ n ih =>
+    intro c hnl hl hnot more
+    match c, hl with
+    | a :: b :: c' :: d :: c'', hl =>
+      have hl' : c''.length = 4 * n := by simp at hl; omega
+      have hnl' : NLFree c'' := fun x hx => hnl x (by simp [hx])
+      by_cases hclean : Clean [a, b, c', d]
+      · have h1 := (b64Decode_clean_append 1 [a, b, c', d] (c'' ++ more) hclean (by simp)).2
+        have h2 := (b64Decode_clean_append 1 [a, b, c', d] c'' hclean (by simp)).2
+        simp only [List.cons_append, List.nil_append] at h1 h2
+        have hlen4 := clean4_length a b c' d hclean
+        have hnot' : ¬ ((b64Decode c'').2 = true ∧ (b64Decode c'').1.length = 3 * n) := by
+          intro hh
+          apply hnot
+          rw [h2]
+          exact ⟨hh.1, by simp only [List.length_append, hlen4, hh.2]; omega⟩
+        have := ih c'' hnl' hl' hnot' more
+        show (b64Decode (a :: b :: c' :: d :: (c'' ++ more))).1 = (b64Decode (a :: b :: c' :: d :: c'')).1
+        rw [h1, h2, this]
+      · have ha := hnl a (by simp)
+        have hb := hnl b (by simp)
+        have hc := hnl c' (by simp)
+        have hd := hnl d (by simp)
+        show (b64Decode (a :: b :: c' :: d :: (c'' ++ more))).1 = (b64Decode (a :: b :: c' :: d :: c'')).1
+        rw [head4_ends a b c' d (c'' ++ more) ha hb hc hd hclean, head4_ends a b c' d c'' ha hb hc hd hclean]
+
+/-- what `fillKeyTagChunk` returns: up to `room` non-line-break characters and the unread rest. -/
+theorem fillChunk_spec : ∀ (enc : Bytes) (room : Nat) (acc : Bytes),
+    ∃ A : Bytes, (fillChunk room enc acc).1 = acc.reverse ++ A ∧ NLFree A ∧ A.length ≤ room ∧
+      strip enc = A ++ strip (fillChunk room enc acc).2 ∧ (fillChunk room enc acc).2.length ≤ enc.length ∧
+      ((fillChunk room enc acc).2 ≠ [] → A.length = room) ∧
+      (enc ≠ [] → 0 < room → (fillChunk room enc acc).2.length < enc.length) := by
+  intro enc
+  induction enc with
+  | nil => intro room acc; exact ⟨[], by simp [fillChunk, NLFree, strip]⟩
+  | cons c t ih =>
+    intro room acc
+    unfold fillChunk
+    by_cases hr : room = 0
+    · refine ⟨[], ?_⟩
+      simp [hr, NLFree]
+    · simp only [hr, if_false]
+      by_cases hnl : isNL c = true
+      · simp only [hnl, if_true]
+        obtain ⟨A, h1, h2, h3, h4, h5, h6, _⟩ := ih room acc
+        exact ⟨A, h1, h2, h3, by rw [strip_cons_nl c t hnl]; exact h4, by simp; omega, h6, fun _ _ => by simp; omega⟩
+      · have hnl' : isNL c = false := by simpa using hnl
+        simp only [hnl', Bool.false_eq_true, if_false]
+        obtain ⟨A, h1, h2, h3, h4, h5, h6, _⟩ := ih (room - 1) (c :: acc)
+        refine ⟨c :: A, ?_, ?_, ?_, ?_, ?_, ?_, ?_⟩
+        · rw [h1]; simp
+        · intro x hx; rcases List.mem_cons.mp hx with rfl | hx; exact hnl'; exact h2 x hx
+        · simp; omega
+        · rw [strip_cons c t hnl', h4]; simp
+        · simp; omega
+        · intro hne; have := h6 hne; simp; omega
+        · intro _ _; simp; omega
+
+/-- **`rsamd5KeyTag` reads the octets of one decode**, for every key text. -/
+theorem rsamd5Fed_eq_decode (chunk : Nat) (h4 : chunk % 4 = 0) (hpos : 0 < chunk) : ∀ (f : Nat) (pk : Bytes),
+    pk.length < f → rsamd5Fed b64Decode chunk f pk = (b64Decode pk).1 := by
+  intro f
+  induction f with
+  | zero => intro pk h; omega
+  | succ f ih =>
+    intro pk hlen
+    unfold rsamd5Fed
+    by_cases he : pk.isEmpty = true
+    · have : pk = [] := by simpa using he
+      subst this; simp [b64Decode_nil]
+    · have hne : pk ≠ [] := by simpa using he
+      simp only [he, Bool.false_eq_true, if_false]
+      obtain ⟨A, hA, hnlA, hlenA, hstrip, _, hfull, hprog⟩ := fillChunk_spec pk chunk []
+      simp only [List.reverse_nil, List.nil_append] at hA
+      rw [hA]
+      generalize hrest : (fillChunk chunk pk []).2 = rest at hstrip hfull hprog
+      have hprog' : rest.length < pk.length := hprog hne hpos
+      have hwhole : b64Decode pk = b64Decode (A ++ strip rest) := by rw [b64Decode_strip' pk, hstrip]
+      -- the chunk is whole groups whenever something is left to read
+      have hgroups : rest ≠ [] → A.length = 4 * (chunk / 4) := fun hr => by rw [hfull hr]; omega
+      by_cases hok : (b64Decode A).2 = true
+      · simp only [hok, Bool.not_true, Bool.false_eq_true, if_false]
+        by_cases hr : rest = []
+        · subst hr
+          have : b64Decode pk = b64Decode A := by rw [hwhole]; simp [strip]
+          cases f with
+          | zero => simp [rsamd5Fed, this]
+          | succ f' => simp [rsamd5Fed, this]
+        · have hre : rest.isEmpty = false := by simpa using hr
+          simp only [hre, Bool.not_false, Bool.true_and, decide_eq_true_eq]
+          by_cases hshort : (b64Decode A).1.length < chunk / 4 * 3
+          · simp only [hshort, if_true]
+            rw [hwhole]
+            exact (decode_prefix_stops (chunk / 4) A hnlA (hgroups hr) (by intro hh; omega) (strip rest)).symm
+          · simp only [hshort, if_false]
+            have hlen3 : (b64Decode A).1.length = 3 * (chunk / 4) := by
+              have := b64_len_le A hok
+              have := material_le_length A
+              have := hgroups hr
+              omega
+            have hclean := clean_of_full A (chunk / 4) (hgroups hr) hok hlen3
+            have happ := (b64Decode_clean_append (chunk / 4) A (strip rest) hclean (hgroups hr)).2
+            rw [hwhole, happ, ← b64Decode_strip' rest, ih rest (by omega)]
+      · have hok' : (b64Decode A).2 = false := by simpa using hok
+        simp only [hok', Bool.not_false, if_true]
+        rw [hwhole]
+        by_cases hr : rest = []
+        · subst hr; simp [strip]
+        · exact (decode_prefix_stops (chunk / 4) A hnlA (hgroups hr) (by intro hh; rw [hok'] at hh; cases hh.1) (strip rest)).symm
+
 end SdnsVerif.Lemmas.DnssecPrim
